@@ -3,6 +3,7 @@ import ast
 import hashlib
 import importlib
 import os
+import re
 import subprocess
 import sys
 import tempfile
@@ -826,7 +827,14 @@ class Engine(object):
         if havoc:
             for path, t in havoc.items():
                 self.havoc_path(ex, env, path, t)
-        if c.get("result_is"):
+        alias = None
+        for (nm, e) in self.norm_named(c.get("ensures"), "post"):
+            m = re.fullmatch(r"\s*same_object\(\s*result\s*,\s*([A-Za-z_][\w.]*)\s*\)\s*", e)
+            if m:
+                alias = m.group(1)      # the contract promises the result IS that object: hand that object back
+        if alias is not None:
+            res = ex.spec_eval(alias, env)
+        elif c.get("result_is"):
             res = fresh_copy(ex.spec_eval(c["result_is"], env))
         else:
             res = self.fresh_of_type(ex, c.get("returns", "None"), "ret_" + fq.rsplit(".", 1)[-1], env)
